@@ -449,6 +449,20 @@ func runC06(c *Ctx) {
 					})
 				}
 				visit(f, 0)
+				// the registration stays in force while the shutdown runs: nothing in the registering function or the
+				// functions visited above un-registers the channel (signal.Stop / Reset / Ignore restore the default
+				// disposition, so a second signal during the shutdown kills the supervisor and orphans the processes)
+				undone := ""
+				for g := range seen {
+					AllInstrs(g, func(x ssa.Instruction) {
+						if cc := CallCommonOf(x); cc != nil {
+							if o2 := CalleeObj(cc); o2 != nil && o2.Pkg() != nil && o2.Pkg().Path() == "os/signal" && (o2.Name() == "Stop" || o2.Name() == "Reset" || o2.Name() == "Ignore") {
+								undone = o2.Name() + " in " + p.FuncKey(g)
+							}
+						}
+					})
+				}
+				c.Check(undone == "", r5, "stays-registered:"+p.FuncKey(f), p.InstrPos(call), "the handler stays registered during the shutdown", "the signal registration is undone (signal."+undone+") before or while the shutdown runs: a repeated SIGTERM/SIGINT/SIGHUP then terminates process-compose itself, the SIGKILL escalation never happens and the managed process groups survive")
 				c.Check(reaches, r5, "consumer:"+p.FuncKey(f), p.InstrPos(call), "the signal consumer reaches ShutDownProject", "the consumer of the signal channel does not reach ShutDownProject: SIGTERM/SIGINT/SIGHUP would not stop the managed processes")
 			})
 		}
